@@ -219,6 +219,14 @@ def run(ctx):
     if not lv:
         raise AnalysisError("normalize_bins: member loop not found")
     _check_site(ctx, nb, lv[0], {"sums"}, lambda p: True, ["frequencies", "errors2"], "per-bin")
+    # ... and the divisor is the per-bin sum over the members, not a clipped / shifted / partial version of it
+    defs = [n.value for n in ast.walk(nb.node) if isinstance(n, ast.Assign) and U(n.targets[0]) == "sums"]
+    accepted = {"self.sum().frequencies", "col.sum().frequencies", "self.sum()._frequencies", "col.sum()._frequencies",
+                "sum(self.histograms).frequencies", "sum(col.histograms).frequencies"}
+    ctx.check(len(defs) == 1 and U(defs[0]) in accepted, "C06.a", "HistogramCollection.normalize_bins:divisor",
+              "sums = frequencies of the sum of all members",
+              f"the per-bin divisor is `{U(defs[0]) if defs else None}`, not the plain per-bin sum over all members "
+              "(the members' shares of a bin no longer add up to 1)", nb.where)
 
     check_stats_mul(ctx, "C06.a", m)
     sm = m.cls("Statistics").methods.get("__mul__")
@@ -297,6 +305,10 @@ def run(ctx):
 
     from rules import c13
     c13.check_operator_coercion(ctx, "C06.c", m)
+    # ... and the coercion the division relies on converts frequencies, errors2 AND the missed store (in-place `/=` on an
+    # integer missed store raises), after checking both arrays
+    c13.check_arrays_follow_dtype(ctx, "C06.c", m)
+    c13.check_set_dtype_checks(ctx, "C06.c", m)
 
     ctx.rule("C06.d", "histogram operands refused first; no reflected division / power operators; contents via setters", 4)
     for name in ("__imul__", "__itruediv__"):
